@@ -311,3 +311,11 @@ read_groups_unit = Contract(
                  'no failures injected here (failure paths: C20)'],
 )
 UNITS.append(read_groups_unit)
+
+
+def extra_units():
+    """"the output is coordinate sorted and indexed": sort_and_index returns only after a successful sort and index (C20's
+    unit, re-verified under this property)"""
+    from contracts import c20
+    from pyvc.units import share
+    return [share(c20.sort_and_index, PROP)]
